@@ -83,10 +83,12 @@ claim("C15", MC,
       "and script-side bindings are outside (over budget).",
       "Kani/CBMC bounded model checking of src/value/list.rs against an array model", "K", "DESIGN.md 5/C15, 10.3")
 claim("C16", MC,
-      "Kani/CBMC with the schedule as symbolic input: at each schedule point (hook H3) of get a kani::any() bit decides whether the other thread's "
-      "operation (push / clone+drop; thorough: 4 pushes forcing a reallocation) runs there; deallocated-object checks and linearisability vs the model.",
-      "Sequentialisation: preempting operations run atomically, depth 1, one storage. Quick tier covers get vs push (no reallocation) and get vs "
-      "clone/drop; the reallocation schedule needs 48 GB / 25 min and is thorough-only. ffi::list_get schedules are over budget.",
+      "Kani/CBMC with the schedule as symbolic input: at the schedule points of the running operation (before each lock acquisition, hook H3; after each lock "
+      "release, hook H7) a kani::any() bit decides whether the other thread's whole operation runs there; deallocated-object checks and linearisability vs the "
+      "model. Quick: get / len vs push without reallocation at every point; get on a full list (len == capacity, built directly) vs one push that relocates the "
+      "storage, before the lock and after the release. Thorough adds the 4-push relocation schedule from a 1-element list.",
+      "Sequentialisation: preempting operations run atomically, depth 1, one preempting thread, one storage, u64 elements. Schedules of to_vec, ==, concat, "
+      "contains/index, ffi::list_get and push vs push exceed the CBMC budget (20-48 GB) and are not claimed.",
       "Kani/CBMC bounded model checking with sequentialised schedules (symbolic preemption points)", "K", "DESIGN.md 5/C16, 10.3")
 claim("C17", MC,
       "Kani/CBMC: byte view {len, get, slice} on every UTF-8 string <= 2 bytes (thorough 3) and line view {slice, get} on every ASCII string, all indices in "
